@@ -185,7 +185,7 @@ Proof.
       destruct F as [f1 f2 f3 f4 f5 f6 f7 f8 f10 f9]. rewrite negb_inv in f6, f7, f8, f10, f9.
       constructor; rewrite ?Hoth, ?Hign, ?negb_inv, ?Hsame; cbn [w_chg s_ex s_path s_spath s_hash s_shash s_oid s_chg].
       * exact f1.
-      * destruct (Hready (negb sd) k1 ob1 Ho' Hob1) as [X|X]; [left; exact X|right; right; exact X].
+      * intros _. destruct (Hready (negb sd) k1 ob1 Ho' Hob1) as [X|X]; [left; exact X|right; right; exact X].
       * exact f3.
       * exact f4.
       * exact f5.
@@ -200,6 +200,29 @@ Proof.
         repeat (split; [assumption|]). exists k', ob'. rewrite Hobj. auto.
 Qed.
 
+Lemma EntOk_clear_disc evl g w w' e en sd :
+  EntOk evl g w e en -> is_discarded (e_ign en) = true ->
+  (forall sd0 k0, obj_at w' sd0 k0 = obj_at w sd0 k0) ->
+  EntOk evl g w' e (clr en sd).
+Proof.
+  intros [A B C] Ed Hobj.
+  assert (Hign: e_ign (clr en sd) = e_ign en) by apply ign_ss.
+  assert (Hg: forall sd0, exists c, gs (clr en sd) sd0 = w_chg (gs en sd0) c /\ (tchg (s_chg (gs en sd0)) = false -> tchg c = false)).
+  { intros sd0. destruct (Bool.bool_dec sd0 sd) as [Heq|Hne].
+    - subst sd0. exists (CNum 0). split; [apply gs_ss_same|reflexivity].
+    - exists (s_chg (gs en sd0)). assert (sd0 = negb sd) by (destruct sd0, sd; try reflexivity; contradiction). subst sd0.
+      unfold clr. rewrite gs_ss_other. split; [destruct (gs en (negb sd)); reflexivity|auto]. }
+  constructor.
+  - rewrite Hign. exact A.
+  - destruct sd; simpl in *; exact B.
+  - intros sd0. destruct (Hg sd0) as (c & Hc & Hcf). destruct (C sd0) as [c1 c2 c3 c5 c4].
+    constructor; rewrite ?Hc, ?Hign; cbn [w_chg s_otype s_force s_oid s_chg s_path s_hash s_spath s_shash s_ex]; auto.
+    + intros Hn. destruct (c3 Hn) as (X1 & X). split; [apply Hcf; exact X1|exact X].
+    + intros o Ho. destruct (c4 o Ho) as (k & ob & Hk & Hob & Hk2 & F). exists k, ob. split; [exact Hk|]. split; [rewrite Hobj; exact Hob|]. split; [exact Hk2|].
+      destruct F as [f1 f2 f3 f4 f5 f6 f7 f8 f10 f9].
+      constructor; rewrite ?Hc, ?Hign; cbn [w_chg s_otype s_force s_oid s_chg s_path s_hash s_spath s_shash s_ex]; try (intros Hd; congruence); auto.
+Qed.
+
 (* ------------------------------------------------------------------ the invariant across a clearing step *)
 Lemma flagged_clr en sd : flagged (clr en sd) = other_flagged en sd.
 Proof. unfold flagged, clr, other_flagged. destruct en as [l r i p], sd; simpl; [rewrite orb_false_r|]; reflexivity. Qed.
@@ -212,7 +235,7 @@ Definition ReadyAll (evl : evlist) (w : world) (e : nat) (en : StateModel.entry)
   forall sd0 k ob, s_oid (gs en sd0) = Some (ostr_k k) -> obj_at w sd0 k = Some ob -> pd evl sd0 k = true \/ freshP (gs en sd0) ob.
 
 Lemma inv_clear evl g w w' e en en' sd :
-  InvP evl g w -> (2 <= e)%nat -> nth_error (ents (w_st w)) e = Some en -> ReadyAll evl w e en ->
+  InvP evl g w -> (2 <= e)%nat -> nth_error (ents (w_st w)) e = Some en -> (is_discarded (e_ign en) = false -> ReadyAll evl w e en) ->
   (forall k ob cs, s_oid (gs en sd) = Some (ostr_k k) -> obj_at w sd k = Some ob -> pd evl sd k = false ->
      freshP (gs en sd) ob -> is_discarded (e_ign en) = false -> g_get k (g_of g sd) = Some cs ->
      s_oid (gs en (negb sd)) <> None /\ ProvModel.o_exists ob = true /\ s_hash (gs en sd) = s_shash (gs en sd)) ->
@@ -263,5 +286,7 @@ Proof.
     + destruct (Hoth x xn Hne Hxn) as (xn' & Hxn' & S). exists x, xn'. split; [exact Hxn'|]. rewrite <- (sbp_gs _ _ sd0 S). exact Hox.
   - intros sd0 k0 cs Hg. rewrite Hobj. apply (i_ghost _ _ _ I sd0 k0 cs Hg).
   - apply (EntOk_sbp _ _ _ _ (clr en sd) en' Ssbp).
-    apply (EntOk_clear evl g w w' e en sd EO Hobj); [exact Hxe|exact Hready|exact Hjust].
+    destruct (Bool.bool_dec (is_discarded (e_ign en)) true) as [Ed|Ed].
+    + apply (EntOk_clear_disc evl g w w' e en sd EO Ed Hobj).
+    + apply Bool.not_true_is_false in Ed. apply (EntOk_clear evl g w w' e en sd EO Hobj); [exact Hxe|exact (Hready Ed)|exact Hjust].
 Qed.
